@@ -8,31 +8,46 @@ from ..wire import Sym, enc, request as rq, lean_representable
 
 ID = "C13"
 LEAN_MODULE = "BibVerif.Props.C13"
-TECHNIQUE = ("Lean 4 proof about a one-pass scanner model (structural recursion over the characters) and the "
-             "partition function; differential correspondence model vs names.py incl. the repo's BibTeX-derived corpus")
+TECHNIQUE = ("Lean 4 proof about a one-pass scanner model (structural recursion over the characters), the partition "
+             "function and the per-word case function wordCase (a fold over one word; case_spec: scanner invariant by "
+             "induction over the loop); differential correspondence model vs names.py incl. the repo's BibTeX-derived corpus")
 RULE = ("corpus (D8/D14 witnesses; every name and co-author input of tests/middleware_tests/test_names.py, loaded from "
         "the file - inputs only); every string of <= k tokens over {Aa, bb, 1, space, ',', ~, {, }, \\x, \\X, \\ (lone), "
         "\\', 'b c', tab} (k=5 quick: exhaustive for that alphabet; k=6 thorough); random structured names with special "
         "characters {\\'E}x, nested braces, control sequences, non-ASCII letters (classified by the running CPython); "
         "SplitNameParts / MergeNameParts on entries (invalid names -> MiddlewareErrorBlock, both inplace settings, "
         "a following copy-mode middleware deep-copies the error block). Compared: the four word lists or the exact "
-        "InvalidNameError reason; for entries the complete block. Non-trivial = a name with at least one word.")
+        "InvalidNameError reason; for entries the complete block. Word case (kind wcase): for every corpus name, every "
+        "token string of <= 5 tokens and every random name, each word the real parser returns is sent with its case by "
+        "the Python reference word_case and the REAL parser's own verdict on it (is it a von part in `A <word> B`?) and "
+        "compared with the Lean wordCase of the theorem case_spec and with wordCase = 0; additionally wordCase against "
+        "word_case on arbitrary strings (token strings of <= 3 tokens quick / <= 5 thorough, random word-like strings; "
+        "unbalanced ones and top-level separators included). Non-trivial = a name with at least one word.")
 LEVEL_TEXT = ("Lean theorems about the model of parse_single_name_into_parts(strict=True), for EVERY name and every "
               "Unicode classification of characters: words_preserved (all words of all sections, concatenated in order, are "
               "the name with its top-level separators removed - an independent recursion over depth and escapes), "
               "sections_partition, rule_form1 / rule_form23 / rule_form3 (the First/von/Last/Jr partition exactly as the "
               "property states it) with rule_form1_unique / rule_form23_unique (the stated rule determines the partition), "
+              "case_spec (the case the scanner records for EVERY word of every section of every name is wordCase P w: "
+              "BibTeX's case of the word as a fold over the word's own characters - depth-0 letters, escapes, special "
+              "characters {\\cs ...} after their control sequence, ordinary brace groups skipped, first counting letter "
+              "decides, caseless = -1 - with no hypothesis beyond scan = ok), lower_iff_wordCase and rule_form1_case / "
+              "rule_form23_case / rule_form3_case (+ _unique): the partition rule restated on the texts of the words "
+              "alone, 'lower-case word' = wordCase P w = 0, "
               "invalid_iff (error <=> unbalanced braces, more than two top-level commas or a trailing comma; the model has "
               "no other failure mode), middleware_error_block and middleware_never_raises. The model is tied to names.py "
               "by differential execution on every run (incl. the repo's own BibTeX-derived corpus); the reference notions "
-              "of the statements (Invalid, dropTopSeps) are additionally run against the real function.")
+              "of the statements (Invalid, dropTopSeps, wordCase) are additionally run against the real function: wordCase "
+              "against the independent Python word_case and against the real parser's treatment of each word.")
 LEVEL_NOTE = ("Trusted: Lean kernel + 3 standard axioms; the hand-written models Names/Parse.lean, Names/Merge.lean; the "
-              "correspondence run; str.isalpha/str.isupper enter as parameters (no hypothesis about them is needed).")
+              "correspondence run; str.isalpha/str.isupper enter as parameters (no hypothesis about them is needed). "
+              "wordCase (Names/Case.lean) is part of the statements, not of the trusted model: that it is BibTeX's case "
+              "of a word is read off its definition (kernel-evaluated examples in Props/C13.lean) and cross-checked "
+              "against names_util.word_case on every run; the real parser only reveals case = 0 vs != 0 of a word "
+              "(upper vs caseless does not influence any result), which is what the probe compares.")
 EXHAUSTIVE = {"quick": True, "thorough": True}
 ASSUMPTIONS = []
-PARTIAL = ["case of a word: the theorems speak about the case the scanner computes inline for each word (lower-case = 0); "
-           "its characterisation as a per-word function of BibTeX (special characters, control sequences) is not a Lean "
-           "theorem - it is checked by the oracle's independent word_case on every generated name"]
+PARTIAL = []
 
 ALPHABET = ["Aa", "bb", "1", " ", ",", "~", "{", "}", "\\x", "\\X", "\\", "\\'", "b c", "\t"]
 
@@ -73,6 +88,10 @@ def corpus():
     for f in fields:
         for n in split(f):
             cases.append({"n": n})
+    # the per-word case function (`wordCase` of the Lean theorem case_spec) on the words of all these names
+    cases.extend([{"kind": "wcase", "n": c["n"]} for c in list(cases)])
+    cases.append({"kind": "wcase", "w": ["{\\'E}x", "{\\'e}x", "{\\relax ab}", "{\\relax Ab}", "{Ab}", "{Ab}c", "\\x1", "\\X", "{x\\Y}",
+                                        "{\\1Ab}", "{{\\'e}}z", "12", "", "a\\", "{\\ a}B", "}}{a", "a b", "{\\", "\\{a", "{\\É}", "ǅ", "{\\ǅ}é"]})
     # D14: the error block must survive a following copy-mode middleware / deepcopy
     cases.append({"kind": "mw", "fields": [["author", {"names": ["A, B, C, D"]}]],
                   "groups": [["splitParts"], ["mergeCo"], ["mergePartsLast"]], "inplace": False})
@@ -125,8 +144,21 @@ def gen(tier, rng):
     k = 5 if tier == "quick" else 6
     for t in C.token_strings(ALPHABET, k):
         yield {"n": t}
+    # the per-word case function of the Lean statement `case_spec` on every word of every such name (k = 5 in both
+    # tiers: a word of a 6-token name that is not a word of a 5-token name is the whole name, covered below)
+    for t in C.token_strings(ALPHABET, 5):
+        yield {"kind": "wcase", "n": t}
     for _ in range(20000 if tier == "quick" else 200000):
-        yield {"n": _random_name(rng)}
+        n = _random_name(rng)
+        yield {"n": n}
+        yield {"kind": "wcase", "n": n}
+    # ... and as a function of arbitrary strings (also unbalanced ones, separators inside): `wordCase` against the
+    # Python reference `word_case`; the real parser is probed where the string is a word of a valid name
+    for t in C.token_strings(ALPHABET, 3 if tier == "quick" else 5):
+        yield {"kind": "wcase", "w": [t]}
+    for _ in range(5000 if tier == "quick" else 50000):
+        yield {"kind": "wcase", "w": [rng.choice(_W) + rng.choice(["", "", rng.choice(_W)]) + rng.choice(["", rng.choice(ALPHABET)])
+                                       for _ in range(rng.randint(1, 4))]}
     # the reference notions of the Lean statements (`Invalid`, `dropTopSeps`) against the real function
     for t in C.token_strings(ALPHABET, 4 if tier == "quick" else 5):
         yield {"kind": "spec", "n": t}
@@ -142,12 +174,64 @@ def request(case):
         if not lean_representable(text):
             return None
         return rq("namestack", B.enc_block(U.make_entry(case["fields"])), U.groups_sx(case["groups"]), chars_of=text)
+    if case.get("kind") == "wcase" and "w" in case:
+        text = "".join(case["w"])
+        if any(0xD800 <= ord(c) <= 0xDFFF for c in text):
+            return None
+        return rq("wordcase", list(case["w"]), chars_of=text)
     n = case["n"]
     if any(0xD800 <= ord(c) <= 0xDFFF for c in n):
         return None
     if case.get("kind") == "spec":
         return rq("namespec", n)
+    if case.get("kind") == "wcase":
+        return rq("namecases", n, chars_of=n)
     return rq("nameparse", n, chars_of=n)
+
+
+def real_lower_probe(w):
+    """How the REAL parser treats the word `w` between an upper-case word and a final word (`A w B`, comma-free
+    form with three words): von = [w] exactly when the parser's case of `w` is 0.  Returns True / False, or None
+    when `w` is not one word of a valid name (then the parser cannot be asked about it)."""
+    from bibtexparser.middlewares.names import parse_single_name_into_parts, InvalidNameError
+    try:
+        p = parse_single_name_into_parts("A " + w + " B")
+    except InvalidNameError:
+        return None
+    if p.first + p.von + p.last != ["A", w, "B"] or p.jr or p.last[-1:] != ["B"] or p.first[:1] != ["A"]:
+        return None
+    if p.von == [w] and p.first == ["A"] and p.last == ["B"]:
+        return True
+    if p.von == [] and p.first == ["A", w] and p.last == ["B"]:
+        return False
+    return Sym("probe:%d.%d.%d" % (len(p.first), len(p.von), len(p.last)))
+
+
+def _case_words(case):
+    """the words of a `wcase` case: given directly, or all words the REAL parser returns for the name
+    (first, von, last, jr); None for an invalid name"""
+    from bibtexparser.middlewares.names import parse_single_name_into_parts, InvalidNameError
+    if "w" in case:
+        return list(case["w"])
+    try:
+        p = parse_single_name_into_parts(case["n"])
+    except InvalidNameError:
+        return None
+    return p.first + p.von + p.last + p.jr
+
+
+def render_cases(case):
+    """`(cases ((word case lower?) ...))`: the case by the Python reference `word_case`; `lower?` is the REAL
+    parser's own verdict on the word (`real_lower_probe`) wherever it can be asked, else the reference's"""
+    ws = _case_words(case)
+    if ws is None:
+        return "(invalid)"
+    out = []
+    for w in ws:
+        c = U.word_case(w)
+        probe = real_lower_probe(w)
+        out.append([w, c, (c == 0) if probe is None else probe])
+    return enc([Sym("cases"), out])
 
 
 def render_spec(name):
@@ -190,6 +274,8 @@ def impl(case):
             # invalid: compare only the flag; take the text from the model side convention
             return "(spec T)"
         return r
+    if case.get("kind") == "wcase":
+        return render_cases(case)
     return render_parse(case["n"])
 
 
@@ -200,6 +286,8 @@ def oracle(case):
     from bibtexparser.middlewares.names import parse_single_name_into_parts as parse, InvalidNameError
     if case.get("kind") == "mw":
         return _oracle_mw(case)
+    if case.get("kind") == "wcase":
+        return _oracle_wcase(case)
     name = case["n"]
     secs = U.sections_spec(name)
     try:
@@ -223,6 +311,28 @@ def oracle(case):
         return "words not preserved: %r vs %r" % (got, secs)
     if secs and secs[0] and not p.last:
         return "last name is empty although the first section has words"
+    return None
+
+
+def _oracle_wcase(case):
+    """per word: the real parser makes the word a von part between `A` and `B` exactly when BibTeX's case of the
+    word (the independent `word_case`) is 0; words of a name are the words of the independent sectioniser"""
+    ws = _case_words(case)
+    if "n" in case:
+        secs = U.sections_spec(case["n"])
+        if (ws is None) != (secs is None):
+            return "validity: parser %r, sectioniser %r" % (ws, secs)
+        if ws is not None and sorted(ws) != sorted(w for sec in secs for w in sec):
+            return "words %r, sectioniser %r" % (ws, secs)
+    for w in ws or []:
+        probe = real_lower_probe(w)
+        if U.sections_spec(w) == [[w]]:
+            if probe is None:
+                return "the one-word name %r is not kept as one word in `A %s B`" % (w, w)
+            if probe is not (U.word_case(w) == 0):
+                return "word %r: BibTeX's case is %d, but `A %s B` gives von? = %r" % (w, U.word_case(w), w, probe)
+        elif probe is not None and "n" in case:
+            return "word %r of a valid name is not a one-word name for the sectioniser" % (w,)
     return None
 
 
@@ -276,7 +386,7 @@ def known_match(finding, case, failure):
 
 
 def nontrivial(case, out):
-    return out not in ("(ok (np () () () ()))", "()", "")
+    return out not in ("(ok (np () () () ()))", "()", "", "(cases ())", "(invalid)")
 
 
 def describe(cases, outs):
@@ -284,6 +394,7 @@ def describe(cases, outs):
     shape = collections.Counter()
     feats = collections.Counter()
     kinds = collections.Counter()
+    wcases = collections.Counter()
     for c, o in zip(cases, outs):
         if c.get("kind") == "mw":
             kinds["middleware"] += 1
@@ -291,6 +402,16 @@ def describe(cases, outs):
             continue
         if c.get("kind") == "spec":
             kinds["statement reference (Invalid / dropTopSeps)"] += 1
+            continue
+        if c.get("kind") == "wcase":
+            kinds["word case (wordCase of case_spec): " + ("words of a parsed name" if "n" in c else "arbitrary strings")] += 1
+            if o.startswith("(cases"):
+                wcases["words"] += o.count(" i")
+                wcases["upper (1)"] += o.count(" i1 ")
+                wcases["lower (0)"] += o.count(" i0 ")
+                wcases["caseless (-1)"] += o.count(" i-1 ")
+                # 7b.5c = a brace group starting with a backslash (special character)
+                wcases["words with a special character {\\..}"] += o.count("7b.5c")
             continue
         kinds["function"] += 1
         n = c["n"]
@@ -316,4 +437,5 @@ def describe(cases, outs):
             feats["has brace"] += 1
         if any(ord(ch) > 127 for ch in n):
             feats["non-ASCII"] += 1
-    return {"kinds": dict(kinds), "forms": dict(forms), "shape": dict(shape), "features": dict(feats)}
+    return {"kinds": dict(kinds), "forms": dict(forms), "shape": dict(shape), "features": dict(feats),
+            "word_cases": dict(wcases)}
